@@ -457,3 +457,10 @@ Fixpoint root_cause (cause : nat -> option nat) (fuel : nat) (e : nat) : nat :=
 Definition report_id (cause : nat -> option nat) (e : nat) : nat := e.
 (* what parallel_safe hands the caller when the raised errors are errs (reporting order) and each is reported as f e *)
 Definition run_reporting (f : nat -> nat) (errs : list nat) : option nat := run_with fresh_reporter (map f errs).
+
+(* ---------------------------------------------------------------- bookkeeping of the started threads (Wave 14) *)
+(* parallel_safe keeps the threads it started in a LIST and joins every element: thread ids 0..n-1 in start order.
+   The variant that keeps them in a dict keyed by a name derived from the URI joins `map snd (cfs names)`: the last
+   thread of every name (a later thread with the same name replaces the earlier one). *)
+Definition joined_list (uris : list Z) : list nat := seq 0 (List.length uris).
+Definition joined_by_name (name : Z -> Z) (uris : list Z) : list nat := map snd (cfs (map name uris)).
